@@ -4,23 +4,32 @@
         1usize << (first >> 6)
     }
 
-    /// RFC 9000 §16 / A.1: value of the variable-length integer at the start of `b` (caller checked the length)
+    /// RFC 9000 §16 / A.1: value of the variable-length integer at the start of `b` (caller checked the length).
+    /// Written out per width (no loop, no symbolic index) to keep CBMC's formula small.
     fn varint_val(b: &[u8]) -> u64 {
-        let n = varint_len(b[0]);
-        let mut v = (b[0] & 0x3f) as u64;
-        let mut i = 1;
-        while i < n {
-            v = (v << 8) | b[i] as u64;
-            i += 1;
+        let b0 = (b[0] & 0x3f) as u64;
+        match b[0] >> 6 {
+            0 => b0,
+            1 => (b0 << 8) | b[1] as u64,
+            2 => (b0 << 24) | (b[1] as u64) << 16 | (b[2] as u64) << 8 | b[3] as u64,
+            _ => {
+                (b0 << 56)
+                    | (b[1] as u64) << 48
+                    | (b[2] as u64) << 40
+                    | (b[3] as u64) << 32
+                    | (b[4] as u64) << 24
+                    | (b[5] as u64) << 16
+                    | (b[6] as u64) << 8
+                    | b[7] as u64
+            }
         }
-        v
     }
 
     fn is_incomplete_err<T>(r: &nom::IResult<&[u8], T>) -> bool {
         matches!(r, Err(nom::Err::Incomplete(_)))
     }
 
-    /// RFC 9000 §16 decoder written directly from the RFC (loop bounded by the 8-byte width). Used as a verified
+    /// RFC 9000 §16 decoder written directly from the RFC (loop-free). Used as a verified
     /// stand-in for `crate::varint::be_varint` (a nom bit-level parser that costs CBMC minutes per call) in the
     /// harnesses below; `be_varint_refines_spec` proves the real function returns exactly this on every input.
     fn be_varint_spec(input: &[u8]) -> nom::IResult<&[u8], VarInt> {
@@ -31,7 +40,13 @@
         if input.len() < n {
             return Err(nom::Err::Incomplete(nom::Needed::new(n - input.len())));
         }
-        Ok((&input[n..], VarInt::from_u64(varint_val(input)).unwrap()))
+        let v = VarInt::from_u64(varint_val(input)).unwrap();
+        match n {
+            1 => Ok((&input[1..], v)),
+            2 => Ok((&input[2..], v)),
+            4 => Ok((&input[4..], v)),
+            _ => Ok((&input[8..], v)),
+        }
     }
 
     /// `be_varint` == `be_varint_spec` on every input (inputs longer than 9 bytes differ only in the untouched
